@@ -14,7 +14,7 @@ use crate::ihex;
 use crate::report::{cov, machinery_fail, Report, Scratch, Tier};
 use crate::sut::{self, Outcome};
 
-const SOURCES: [(&str, &str); 11] = [
+const SOURCES: [(&str, &str); 15] = [
     ("code-only", "start_l: ldi r16, 1\n rjmp start_l\n.db \"hi\", 0\n"),
     ("code-and-eeprom", "ldi r16, 2\n.eseg\nee_v: .db 1, 2, 3, 4, 5\n.cseg\nldi r17, ee_v\n"),
     ("eeprom-only", ".eseg\n.dw 0xbeef, 0x1234\n"),
@@ -26,6 +26,12 @@ const SOURCES: [(&str, &str); 11] = [
     ("error-directive", "nop\n.error \"stop here\"\n"),
     ("missing-include", "nop\n.include \"does_not_exist.inc\"\n"),
     ("nonexistent-source", "<no file is written>"),
+    // devices with no RAM at all, with no EEPROM, the largest one, and data in all three memories
+    // (what -v has to print differs)
+    ("device-without-ram", ".device ATtiny11\nldi r16, 1\nrjmp pc\n"),
+    ("device-without-eeprom", ".device ATtiny20\nldi r16, 1\n.dseg\nbuf_v: .byte 4\n"),
+    ("largest-device-all-memories", ".device ATmega2560\nldi r16, 1\n.dseg\nbuf_w: .byte 100\n.eseg\n.db 1, 2, 3\n"),
+    ("data-segment-only", ".dseg\nv_only: .byte 16\n"),
 ];
 
 #[derive(Clone, Copy, PartialEq, Eq, Debug, PartialOrd, Ord)]
